@@ -6,6 +6,7 @@ import (
 	"encoding/json"
 	"fmt"
 	"runtime/debug"
+	"strconv"
 	"strings"
 	"testing"
 	"time"
@@ -188,6 +189,24 @@ func genC16Plan(seed uint64, tier string) *C16Plan {
 	}
 	if inTx {
 		p.Ops = append(p.Ops, C16Op{Op: simkit.Pick(g, []string{"commit", "rollback"})})
+	}
+	// the Go types an application binds: named integer types, uint, *uint64, a
+	// Valuer that yields uint64 (sometimes beyond the signed range)
+	for oi := range p.Ops {
+		for ai := range p.Ops[oi].Args {
+			a := &p.Ops[oi].Args[ai]
+			if (a.K != "i" && a.K != "u") || strings.HasPrefix(a.V, "-") || !g.Prob(0.25) {
+				continue
+			}
+			a.K = simkit.Pick(g, []string{"U", "W", "P", "X", "I"})
+			if a.K == "I" {
+				if n, _ := strconv.ParseInt(a.V, 10, 64); n > 1<<31-1 {
+					a.K = "U"
+				}
+			} else if g.Prob(0.2) {
+				a.V = simkit.Pick(g, []string{"9223372036854775808", "18446744073709551615", "9223372036854775807"})
+			}
+		}
 	}
 	if p.Driver == "at" && g.Prob(0.05) {
 		// a batch job: statements that touch a whole block of rows (the image
